@@ -89,7 +89,8 @@ ASSUMPTIONS = [
     "safety (same updates => equal and = specification) is judged everywhere; convergence is judged only as bounded "
     "liveness in 'settle' store runs: SETTLE_ROUNDS (30) gossip rounds after the last write/fault, one gossip interval "
     "for all stores, delays bounded (no straggler profile), loss/partition windows over -> every store must hold "
-    "every update (the chance that two of <=5 stores never exchange directly in 30 push-pull rounds is < 1e-7)",
+    "every update (the chance that two of <=5 stores never exchange directly in 30 push-pull rounds is < 1e-7); with "
+    "asymmetric peer lists (strongly connected directed gossip graph, out-degree <= 2) the bound is 60 rounds",
     "LWW writes may repeat values (value domain a/b/c or one shared value); writes are identified by their timestamp",
     "two objects may carry the same node id only in the sound ways: a snapshot (dict round trip / deep copy) of a replica "
     "that is later caught up by / merged into the live object, a caught-up snapshot promoted to be the live object "
@@ -109,6 +110,7 @@ EXPECTED_PROBES = [
     "probe.orset_tombstones_through_dict", "probe.store_orset_stale_state_merged_after_remove",
     "probe.store_orset_add_wins_over_concurrent_remove", "probe.lww_rewrite_same_value_newer_timestamp",
     "probe.store_settle_run_converged", "probe.store_symmetric_value_tie",
+    "probe.store_asymmetric_peers_settle_converged", "probe.store_push_from_non_peer_merged",
     "probe.twin_snapshot_caught_up_with_newer_state", "probe.twin_stale_snapshot_merged_into_live",
     "probe.twin_snapshot_promoted", "probe.twin_restarted_replica_relearns_own_updates",
     "probe.twin_update_skipped_while_recovering", "probe.reload_then_local_update",
@@ -117,6 +119,7 @@ EXPECTED_PROBES = [
 SHRINK_SKIP = ("klass", "crdt", "variant", "n_nodes")
 SELFTEST_RUNS = 8
 
+SETTLE_ROUNDS_ASYM = 60   # directed graphs with out-degree <= 2: each of <= 4 hops succeeds with p >= 1/2 per round
 SETTLE_ROUNDS = 30   # P(two of <=5 stores never exchange directly in 30 push-pull rounds) <= (9/16)^30 ~ 3e-8
 
 CRDT_CLASSES = {"gcounter": GCounter, "pncounter": PNCounter, "lww": LWWRegister, "orset": ORSet}
@@ -268,6 +271,19 @@ def gen_store(rng):
           "keys": keys, "precreate": rng.random() < 0.5, "settle": settle,
           "lww_values": rng.choice(["unique", "repeat"]),
           "gossip": [iv] * n if settle else [rng.choice([0.05, 0.1, 0.25]) for _ in range(n)], "horizon": horizon}
+    if n >= 3 and rng.random() < 0.4:
+        # asymmetric peer lists (add_peers is per store): a directed ring in a random order keeps the gossip graph
+        # strongly connected; up to one extra outgoing edge per store (hub / back-edge / late-joiner shapes)
+        order = list(range(n))
+        rng.shuffle(order)
+        peers = [[] for _ in range(n)]
+        for i, a in enumerate(order):
+            peers[a].append(order[(i + 1) % n])
+        for a in range(n):
+            if rng.random() < 0.35:
+                b = rng.choice([x for x in range(n) if x != a and x not in peers[a]])
+                peers[a].append(b)
+        sc["peers"] = peers
     sc["net"]["dup_p"] = min(sc["net"]["dup_p"], 0.15)
     faults = _gen_faults(rng, n, horizon * 0.6)
     sc["faults"] = [f for f in faults if f["kind"] != "pause"]
@@ -1183,6 +1199,7 @@ class StoreWorld:
         self.hlc = [HybridLogicalClock(f"s{i}", physical_clock=self.nclock[i]) for i in range(n)]
         self.checks = 0
         self.lww_rewrite = 0
+        self.non_peer_push = 0
 
     def build(self):
         sc = self.sc
@@ -1200,6 +1217,30 @@ class StoreWorld:
             self.stores.append(RecStore(f"s{i}", network=holder, crdt_factory=lambda nid, cls=cls: cls(nid),
                                         gossip_interval=iv, sw=self, idx=i))
         self.driver = LwwDriver(self)
+        peers = sc.get("peers")
+        if peers is None:
+            peers = [[j for j in range(n) if j != i] for i in range(n)]
+        if len(peers) != n or any(not isinstance(pl, list) or len(set(pl)) != len(pl) or any(
+                not isinstance(j, int) or not 0 <= j < n or j == i for j in pl) for i, pl in enumerate(peers)):
+            raise InvalidScenario("peers")
+        self.peers = peers
+        self.asymmetric = any(i not in peers[j] for i in range(n) for j in peers[i])
+        rounds = SETTLE_ROUNDS
+        if sc.get("settle") and self.asymmetric:
+            # information travels along directed edges only: need strong connectivity, small out-degree, more rounds
+            if any(not 1 <= len(pl) <= 2 for pl in peers):
+                raise InvalidScenario("asymmetric settle runs need out-degree 1..2")
+            for src in range(n):
+                seen_, todo = {src}, [src]
+                while todo:
+                    for j in peers[todo.pop()]:
+                        if j not in seen_:
+                            seen_.add(j)
+                            todo.append(j)
+                if len(seen_) != n:
+                    raise InvalidScenario("gossip graph not strongly connected")
+            rounds = SETTLE_ROUNDS_ASYM
+        self.rounds = rounds
         horizon = float(sc.get("horizon", 1.0))
         if sc.get("settle"):
             # bounded liveness: SETTLE_ROUNDS gossip rounds after the last write / fault, on bounded delays
@@ -1211,14 +1252,14 @@ class StoreWorld:
             last = max([float(o.get("t", 0)) for o in sc.get("ops") or []] + [last_fault_end(list(sc.get("faults") or []))])
             if any(f.get("end") is None for f in sc.get("faults") or []):
                 raise InvalidScenario("open-ended fault in a settle run")
-            horizon = last + SETTLE_ROUNDS * float(gossip[0]) + 6.0 * bound
+            horizon = last + rounds * float(gossip[0]) + 6.0 * bound
         self.horizon = horizon
         end = Instant.from_seconds(horizon)
         w = World(sc, self.stores, end_time=end)
         holder.net = w.net
         self.world = w
         for i, s in enumerate(self.stores):
-            s.add_peers([p for p in self.stores if p is not s])
+            s.add_peers([self.stores[j] for j in self.peers[i]])
             if sc.get("precreate"):
                 for k in self.keys:
                     s.get_or_create(k)
@@ -1260,6 +1301,10 @@ class StoreWorld:
                 self.applied.add(oid)
                 self._account(t, md["hop"])
                 self.check_store(t, "local-op")
+        if isinstance(t, RecStore) and ev.event_type == "GossipPush" and not isinstance(ev, ProcessContinuation):
+            src = ev.context["metadata"].get("source")
+            if src not in [p.name for p in t._peers] and t in self.dirty:
+                self.non_peer_push += 1
         while self.dirty:
             self.check_store(self.dirty.pop(), "merge")
 
@@ -1370,8 +1415,9 @@ def run_store(sc):
                 tie = len(set(vals)) == 1
                 d = ("stores-with-equal-values-but-different-state-never-exchange" if tie
                      else "updates-not-propagated-within-the-settle-rounds")
-                sig = f"C18/gossip-convergence/CRDTStore.{sw.cls.__name__}/{d}"
-                msg = (f"key {k}: {SETTLE_ROUNDS} gossip rounds after the last write/fault (bounded delays, no loss) "
+                sig = f"C18/gossip-convergence/CRDTStore.{sw.cls.__name__}/{d}" + (
+                    "/asymmetric-peer-lists" if sw.asymmetric else "")
+                msg = (f"key {k}: peers {sw.peers}: {sw.rounds} gossip rounds after the last write/fault (bounded delays, no loss) "
                        f"{[s.name for s in lag]} still miss updates other stores hold; values {vals}, specified value of "
                        f"all updates {sw.specs[k].value(full)!r}")
                 break
@@ -1381,6 +1427,9 @@ def run_store(sc):
         "store_merges": sw.merges, "store_checks": sw.checks, "budget_runs": int(status == "budget"),
         "store_gossip_msgs": sum(s.stats.gossip_sent for s in sw.stores),
         "probe.store_settle_run_converged": int(bool(sc.get("settle")) and converged),
+        "probe.store_asymmetric_peers_settle_converged": int(bool(sc.get("settle")) and sw.asymmetric and converged
+                                                             and len(sw.updated) >= 2),
+        "probe.store_push_from_non_peer_merged": int(sw.non_peer_push > 0),
         "probe.store_symmetric_value_tie": int(sc.get("workload") == "symmetric" and len(sw.updated) >= 2),
         "probe.lww_rewrite_same_value_newer_timestamp": int(sw.lww_rewrite > 0),
         "probe.store_orset_stale_state_merged_after_remove": int(sw.pr["stale_state_after_remove"] > 0),
@@ -1390,7 +1439,7 @@ def run_store(sc):
     }
     counters.update(w.fault_counters())
     klass = f"store/{sc['crdt']}/{sc.get('variant', 'default')}/{'precreated' if sc.get('precreate') else 'learned'}" + (
-        f"/settle-{sc.get('workload', 'random')}" if sc.get("settle") else "") + (
+        f"/settle-{sc.get('workload', 'random')}" if sc.get("settle") else "") + ("/asym" if sw.asymmetric else "") + (
         "/int" if sc.get("elem") == "int" else "")
     state = repr((klass, sc["n_nodes"], len(sw.keys), converged, any(s.learned for s in sw.stores),
                   w.stats["dups"] > 0, min(sw.merges // 20, 5)))
